@@ -19,6 +19,7 @@ pub mod c04;
 pub mod c06;
 pub mod c08;
 pub mod c09;
+pub mod c10;
 
 pub fn all() -> Vec<Scenario> {
     let mut v = vec![];
@@ -27,5 +28,6 @@ pub fn all() -> Vec<Scenario> {
     c06::register(&mut v);
     c08::register(&mut v);
     c09::register(&mut v);
+    c10::register(&mut v);
     v
 }
